@@ -891,6 +891,127 @@ def random_cases(ctx, n, origin="random"):
     return out
 
 
+# ---------------------------------------------------------------------------
+# text level: random ADMISSIBLE LAYOUTS of the source tokens (Props/C02Text.lean)
+# ---------------------------------------------------------------------------
+WS_RUNS = [" ", " ", " ", "  ", "\t", " \t", "\t ", "   ", "\t\t", " \t "]
+TOKEN_KIND = {"NumericalConstant": "num", "CharacterConstant": "chr", "StringConstant": "str", "Identifier": "ident",
+              "Operator": "op", "Punctuator": "punct", "Unknown": "unknown"}
+
+
+def idents_of(a, acc):
+    k = a["k"]
+    if k == "ident":
+        acc.add(a["n"])
+    for f in ("a", "l", "r", "c", "t", "e", "body"):
+        if isinstance(a.get(f), dict):
+            idents_of(a[f], acc)
+    return acc
+
+
+def layout_trees(ctx, n):
+    """parse trees whose source tokens are their own tokens (no macro leaf; `defined`, unknown identifiers, every constant kind)"""
+    rng = ctx.rng
+    out = []
+    for _ in range(n):
+        defs_on = [m for m in MACROS if rng.random() < 0.3]
+        env = set(defs_on)
+        size = rng.choice([1, 2, 2, 3, 3, 4, 5, 6, 8])
+        for _try in range(20):
+            t = random_tree(rng, size, [], env)
+            if rng.random() < 0.06:
+                # a pair the code's lexer keeps apart but ISO C joins: `a - -b`, `a + +b`
+                o = rng.choice("+-")
+                t = bin_(o, random_tree(rng, size // 2, [], env), un(o, random_tree(rng, size // 2, [], env)))
+            if not (idents_of(t, set()) & env):
+                break
+        else:
+            continue
+        t = parenthesize(t, rng, extra=rng.choice([0.0, 0.0, 0.2]))
+        out.append((t, defs_on, env))
+    return out
+
+
+def choose_gaps(rng, sep, cglue, c_faithful):
+    """one white-space run per token; an empty run only where the Lean predicate `separable` allows it (and, for the
+    property oracle, where ISO C would not join the two tokens either: `cGlue`)"""
+    p_tight = rng.choice([0.3, 0.6, 0.9, 1.0])
+    gaps = []
+    forced = None
+    if not c_faithful:
+        cand = [i for i, (s_, g_) in enumerate(zip(sep, cglue)) if s_ and g_]
+        forced = rng.choice(cand) if cand else None
+    for i, (s_, g_) in enumerate(zip(sep, cglue)):
+        may = s_ and (not g_ or not c_faithful)
+        if i == forced or (may and rng.random() < p_tight):
+            gaps.append("")
+        else:
+            gaps.append(rng.choice(WS_RUNS))
+    gaps.append(rng.choice(["", "", " ", "\t", "  "]))          # trailing
+    lead = rng.choice(["", "", " ", "\t", " \t"])
+    return lead, gaps
+
+
+def layout_cases(ctx, drv, impl, n, origin="layout"):
+    """generated expressions written in random admissible layouts (tabs, several blanks, NO blank between separable
+    tokens); the layout, its text and the tokens the lexer must return are computed by the Lean definitions the theorems
+    `lexer_reads_layout` / `text_main_partial` are about (driver ops `layoutsep`, `layoutx`)"""
+    if drv is None:
+        return []
+    rng = ctx.rng
+    trees = layout_trees(ctx, n)
+    asts = [spec_tree(t) for t, _, _ in trees]
+    seps = drv.batch([{"op": "layoutsep", "ast": a} for a in asts])
+    reqs, meta = [], []
+    for (t, defs_on, env), a, sp in zip(trees, asts, seps):
+        want = src_tokens(t, [])
+        if sp["toks"] != want:
+            ctx.corr_break("layout-source-tokens", {"ast": a}, want, sp["toks"])
+            continue
+        modes = [True, True] if rng.random() < 0.8 else [True, False]
+        for c_faithful in modes:
+            if not c_faithful and not any(s_ and g_ for s_, g_ in zip(sp["sep"], sp["cglue"])):
+                continue
+            lead, gaps = choose_gaps(rng, sp["sep"], sp["cglue"], c_faithful)
+            reqs.append({"op": "layoutx", "ast": a, "lead": lead, "gaps": gaps})
+            meta.append((t, defs_on, env, a, c_faithful, lead, gaps, sp))
+    outs = drv.batch(reqs)
+    cases = []
+    for (t, defs_on, env, a, c_faithful, lead, gaps, sp), o in zip(meta, outs):
+        text = o["text"]
+        rec = {"text": text, "defs": [MACROS[m][0] for m in defs_on], "env": sorted(env), "ast": a, "origin": origin,
+               "lead": lead, "gaps": gaps}
+        ctx.dist["layout:texts"] += 1
+        ctx.dist["layout:gaps_written_empty"] += sum(1 for g in gaps[:-1] if g == "")
+        ctx.dist["layout:gaps_with_tab"] += sum(1 for g in gaps if "\t" in g)
+        if "".join(text.split()) == text and len(sp["toks"]) > 1:
+            ctx.dist["layout:texts_without_any_white_space"] += 1
+        if not o["admissible"] or o["c_admissible"] != c_faithful or text != lead + "".join(x + g for x, g in zip(sp["toks"], gaps)):
+            # the generator misread `separable` / `cGlue`: an error of the harness, never of the code
+            ctx.notes.append(f"layout generator: admissible={o['admissible']} c_admissible={o['c_admissible']} (wanted {c_faithful}) for {text!r}")
+            continue
+        if o["lexok_all"] and not o["lex_match"]:
+            # an instance of the theorem `lexer_reads_layout` evaluated to false: the executed model is not the proved one
+            ctx.corr_break("layout-theorem-instance", rec, "PP.tokenize text", "LexLayout.flagged")
+        # ---- the real Lexer must return the tokens the theorem predicts, `prev_white` included
+        try:
+            real = [[TOKEN_KIND.get(type(k).__name__, type(k).__name__), k.token, bool(k.prev_white)] for k in impl.pp.Lexer(text).tokenize()]
+        except BaseException as e:  # noqa
+            real = {"exc": impl.exc_name(e)}
+        ctx.dist["layout:lexer_tokens_and_prev_white_compared"] += 1
+        if real != o["flagged"]:
+            ctx.corr_break("layout-lexer", rec, real, o["flagged"])
+        case = {"text": text, "defs": rec["defs"], "env": rec["env"], "origin": origin if c_faithful else origin + "-lexer-only",
+                "nops": count_ops(t), "lead": lead, "gaps": gaps}
+        if c_faithful:
+            case["ast"] = a          # the property oracle applies: ISO C reads the text as these tokens too
+            if o["no_defined"] and o["lexok_all"]:
+                ctx.dist["layout:inside_text_main_partial_lexical_hypotheses"] += 1
+        cases.append(case)
+    return cases
+
+
+
 GLUE_ATOMS = ["0", "1", "2", "08", "1.5", "0x", "1uu", "1lul", "0b2", "1e+3", "0x1e+2", "'a'", "'\\n'", "''", "'\\101'", "'\\x41'", "'\\377'", "'\\xFf'", "'\\400'", "'\\x100'", "'\\x'", "'\\q'", "'\\8'", "'\\1234'", "'\\18'",
               "'\\xg'", "'\\'", "'\\\\'", "'\\''", "'ab'", "'\\0", "\"s\"", "\"+\"", "A", "F", "G",
               "defined", "defined(A)", "defined A", "defined(", "defined()", "defined(1)", "f(1)", "f()", "f(1,2)", "f(1,)", "f((2))", "f(A,'a')",
@@ -1272,6 +1393,11 @@ def run(ctx, drv):
         + ("ALL 512 triples" if full else "a seeded sample of triples") + " of the 8 core boundary values {0,1,2,(-1),INT64_MAX,(-INT64_MAX-1),1u,UINT64_MAX}; "
         "unary/binary, ?:/binary and nested ?: shapes; random trees with up to 12 operators beyond. WF (property oracle applies) = the Lean "
         "spec defines a value (no UB in evaluated positions, nothing gcc diagnoses), the tree is grammatical, every constant is legal. "
+        "Text level: further random trees (no macro leaf) are written in random ADMISSIBLE LAYOUTS computed by the Lean definitions of "
+        "Model/LexLayout.lean (runs of blanks/tabs of length 0-3 before, between and after the tokens; NO white space wherever `separable` "
+        "holds and ISO C would not join the pair either): the real Lexer's tokens incl. prev_white are compared with `flagged` (what theorem "
+        "lexer_reads_layout predicts), then the text goes through expander + evaluator and is judged like every other case (origin `layout`); "
+        "layouts the code's lexer accepts but ISO C reads differently (`1--1`) are compared model-vs-implementation only (`layout-lexer-only`). "
         "Non-trivial = distinct WF (text, macro set) with >= 2 operators, plus distinct #elif programs. Malformed inputs and "
         "residual calls f(..) are compared model-vs-implementation only ('glue').")
     ctx.assumptions += [
@@ -1290,6 +1416,8 @@ def run(ctx, drv):
     # ---- random beyond
     rnd = random_cases(ctx, ctx.n(9000, 60000))
     run_cases(ctx, drv, impl, rnd)
+    # ---- text level: random admissible layouts (Lean `layout` / `separable`), real Lexer tokens + prev_white, then the evaluator
+    run_cases(ctx, drv, impl, layout_cases(ctx, drv, impl, ctx.n(4000, 30000)))
     # ---- glue
     run_cases(ctx, drv, impl, glue_cases(ctx, ctx.n(1500, 10000)), probe_every=10 ** 9)
     # ---- #elif clause
@@ -1324,6 +1452,8 @@ def search(ctx, drv):
         return
     run_cases(ctx, drv, impl, random_cases(ctx, ctx.n(4000, 20000), origin="search"))
     if not ctx.violations:
+        run_cases(ctx, drv, impl, layout_cases(ctx, drv, impl, ctx.n(3000, 10000), origin="search-layout"))
+    if not ctx.violations:
         run_elif(ctx, drv, elif_programs(ctx, ctx.n(20, 100)))
     if not ctx.violations:
         run_history(ctx, drv, impl, ctx.n(300, 1000))
@@ -1341,6 +1471,15 @@ def replay(ctx, drv, case):
         run_elif(c2, drv, [(case["program"], case.get("defs", []), {})])
         return {"program": case["program"], "violations": [w for w, _ in c2.violations], "correspondence_breaks": c2.corr_breaks}
     out = {"text": case["text"], "defs": case.get("defs", []), "implementation": impl.run(case["text"], case.get("defs", []), full=True)}
+    if drv is not None and case.get("gaps") is not None and case.get("ast") is not None:
+        # a text-level case: the layout as the Lean definitions see it, and the real Lexer's tokens with prev_white
+        o = drv.ask({"op": "layoutx", "ast": case["ast"], "lead": case.get("lead", ""), "gaps": case["gaps"]})
+        out["layout"] = {k: o[k] for k in ("text", "admissible", "c_admissible", "lexok_all", "no_defined", "lex_match", "flagged")}
+        try:
+            out["lexer_tokens"] = [[TOKEN_KIND.get(type(k).__name__, type(k).__name__), k.token, bool(k.prev_white)]
+                                   for k in impl.pp.Lexer(case["text"]).tokenize()]
+        except BaseException as e:  # noqa
+            out["lexer_tokens"] = {"exc": impl.exc_name(e)}
     if drv is not None:
         m = drv.ask(request(case))
         out["model"] = model_view(m)
